@@ -14,8 +14,8 @@ CLAIMED = {
    technique=TECH + ': crash/restart with surviving durable state, twin-run refinement, bounded liveness in sweeps'),
  'C07': dict(engine='als_sim', cat='exploration', ref='DESIGN.md 3.3',
    text='TT-ALS (index and functional version) is run as a checkpointed job under seeded sweep plans: segments ended by nswp or by callback cancellation, restart from the returned tensor, training rows re-delivered in permuted order, clock jumps; invariants at every sweep (descent of the regularised objective, shape/ranks), per-core normal-equation residual recomputed independently, restart equivalence against the continuous run, order independence judged by per-state noise probes.',
-   note='Trusted: independent dense recomputation of objective and normal equations. Tolerances: descent 1e-10 relative, optimality 1e-8 relative, order independence relative to measured conditioning.',
-   technique=TECH + ': sweep-plan splitting / cancellation / restart with re-ordered delivery, invariant monitor at the callback seam'),
+   note='Trusted: independent dense recomputation of objective and normal equations. Tolerances: descent 1e-10 relative, optimality 1e-8 relative, order independence relative to measured conditioning; scenarios with lamb < 1e-8 are judged by the stationarity oracle only (tolerance 1e-6), the descent failure there is a known finding (known_findings.json) probed in every run.',
+   technique=TECH + ': sweep-plan splitting / cancellation / restart with re-ordered delivery, invariant monitor at the callback seam, poisoned uninitialised memory, re-execution of a stratified scenario sample under python -O'),
  'C09': dict(engine='alias_sim', cat='exploration', ref='DESIGN.md 3.4',
    text='A simulated caller owns a pool of objects (TT-tensors, arrays in C/F/strided/negative-stride/read-only layouts, lists, dicts) and runs seeded histories of library calls over the whole exported API, re-feeding results as arguments and scribbling on its own objects between calls; a byte-snapshot reference model of the pool is compared after every operation and at every callback invocation; np.shares_memory between results and arguments.',
    note='Trusted: the call catalogue (cross-checked against inspect.signature), numpy.shares_memory. Undocumented / experimental keywords are excluded.',
@@ -23,7 +23,7 @@ CLAIMED = {
  'C10': dict(engine='history_sim', cat='exploration', ref='DESIGN.md 3.5',
    text='1-4 simulated client threads run scripts of library calls; exactly one holds the baton and a seeded scheduler picks the next holder at every yield point (call entry/exit, every objective / sweep / basis callback, every random draw); the scheduler also reseeds / advances / restores the global NumPy generator, jumps the clock and pollutes the module-level default dictionaries; every result is compared bit for bit with the same call executed in isolation in a canonical world.',
    note='Trusted: result digests (bytes of every array). Overlapping calls of the same function that both rely on the same omitted default dictionary are out of scope (DESIGN 3.5).',
-   technique=TECH + ': baton-passing client threads under a seeded scheduler, global-state perturbation faults, isolated-execution reference'),
+   technique=TECH + ': baton-passing client threads under a seeded scheduler, global-state perturbation faults (generator, clock, default dictionaries, poisoned uninitialised memory, injected LAPACK failures, warm versus fresh process), isolated-execution reference'),
  'C14': dict(engine='sampler_sim', cat='exploration', ref='DESIGN.md 3.6',
    text='The simulator supplies the generator object behind `seed` and thereby decides every draw: for each sampled tensor the sampler is steered through every multi-index and the product of the recorded conditional probabilities must equal entry/sum (resp. squared entry / sum of squares); adversarial draw schedules (extremes, ties, repeats) check shapes, bounds, uniqueness, Latin-hypercube counts and the sample_tt block layout; a chi-square run with a real PCG64 generator is the protocol-independent fallback.',
    note='Trusted: dense evaluation of the tensor, the SimGen generator stub honouring the numpy Generator contract. Exhaustive over multi-indices per sampled tensor (<= 300 entries); tensors are sampled.',
